@@ -145,11 +145,22 @@ def bezier_points(p0, ctrl):
     return nodes, np.vstack(pts)
 
 
-def vertex_id(pt, vc):
-    """1-based index of the spec vertex within VERTEX_TOL of pt, else 0"""
+def vertex_id(pt, vc, extra=0.0):
+    """1-based index of the spec vertex within VERTEX_TOL (+ extra) of pt, else 0"""
     d = np.abs(vc - pt[None, :]).max(axis=1)
     i = int(np.argmin(d))
-    return i + 1 if d[i] <= VERTEX_TOL * max(1.0, float(np.abs(vc[i]).max())) else 0
+    return i + 1 if d[i] <= VERTEX_TOL * max(1.0, float(np.abs(vc[i]).max())) + extra else 0
+
+
+def conditioning(model, geom):
+    """Spec-exported scale of the vertex tolerance.  In the half-plane the code derives the circle of an edge from
+    the half-plane coordinates of its IDEAL endpoints: rounding 1e-16 becomes 1e-8 at the boundary (square root, as in
+    C01) and is amplified by X^2 for an endpoint at abscissa X ~ 2 r.  The arcs of an outline are therefore only
+    accurate to about 1e-8 r^2; r from the spec's descriptors of the arc edges."""
+    if model != "halfplane":
+        return 0.0
+    r2 = [rat(e["r2"]) for e in geom["edges"] if e["kind"] == "arc"]
+    return 2e-8 * max(r2) if r2 else 0.0
 
 
 def edge_between(a, b, nv, closed):
@@ -190,16 +201,18 @@ def outline_events(model, geom, closed, verts, codes):
     vc = np.array([rat2(c) for c in geom["vc"]])
     nv = len(vc)
     evs = []
+    extra = conditioning(model, geom)
+    vid = lambda pt: vertex_id(pt, vc, extra)
     for pc in cut_path(verts, codes):
         if pc[0] == "move":
-            evs.append(dict(op="move", at=vertex_id(pc[1], vc)))
+            evs.append(dict(op="move", at=vid(pc[1])))
         elif pc[0] == "line":
-            a, b = vertex_id(pc[1], vc), vertex_id(pc[2], vc)
+            a, b = vid(pc[1]), vid(pc[2])
             if a and a == b:
                 continue                 # both ends are the same vertex (vertices are distinct points): a join
             evs.append(dict(op="edge", kind="straight", first=a, last=b))
         elif pc[0] == "arc":
-            a, b = vertex_id(pc[1], vc), vertex_id(pc[2][-1], vc)
+            a, b = vid(pc[1]), vid(pc[2][-1])
             e = edge_between(a, b, nv, closed)
             ev = dict(op="edge", kind="arc", first=a, last=b)
             ev.update(measure_arc(model, geom["edges"][e - 1], pc[1], pc[2]) if e else
@@ -216,7 +229,8 @@ def outline_events(model, geom, closed, verts, codes):
 _ACC = re.compile(r'^"ACCEPT (\d+)"')
 _AT = re.compile(r'^"AT (\d+) (\d+)"')
 NODE_TOL = 10        # 1e-9 relative to the radius
-NODE_TOL_HP = 10000  # 1e-6 in the half-plane (circle derived from half-plane coordinates of ideal points: sqrt at the boundary)
+NODE_TOL_HP = 200000  # 2e-5 in the half-plane (circle derived from half-plane coordinates of ideal points: sqrt at the boundary,
+                      # amplified by the abscissa: relative error about 1e-8 r, r < threshold)
 CURVE_TOL = 100      # 1e-4 relative to the radius (matplotlib's Bezier circle: ~4e-6 for 45 degree segments)
 
 
@@ -247,9 +261,11 @@ def validate(run, traces, threshold, name="DrawPathTrace", verbose=False, worker
     return rejected, r
 
 
-def explain(tr, matched):
-    """a name for the clause a rejected outline breaks (labelling only: the verdict is TLC's)"""
+def explain(tr, matched, expect=None):
+    """a name for the clause a rejected outline breaks (labelling only: the verdict is TLC's).
+    expect: the piece kinds DrawScene emitted for the edges (to tell a wrong kind from a wrong order)"""
     evs = tr["events"]
+    nv, closed = len(tr["verts"]), tr["closed"]
     if matched >= len(evs):
         return "path.incomplete"
     ev = evs[matched]
@@ -257,20 +273,25 @@ def explain(tr, matched):
         return "path.malformed"
     if ev["op"] == "move":
         return "path.single_moveto" if matched > 0 else "path.starts_at_vertex"
-    prev = evs[matched - 1] if matched else None
-    pen = prev.get("at", prev.get("last")) if prev else 0
     if matched == 0:
         return "path.starts_with_moveto"
+    prev = evs[matched - 1]
+    pen = prev.get("at", prev.get("last"))
+    if sum(1 for e in evs[:matched] if e["op"] == "edge") >= (nv if closed else nv - 1):
+        return "path.extra_piece"
     if ev["first"] != pen or ev["first"] == 0:
         return "path.continuous"
     if ev["last"] == 0:
         return "path.ends_at_vertex"
-    nv = len(tr["verts"])
-    if not edge_between(ev["first"], ev["last"], nv, tr["closed"]):
+    e = edge_between(ev["first"], ev["last"], nv, closed)
+    if not e:
         return "path.vertices_in_order"
+    fwd = [x["first"] == edge_between(x["first"], x["last"], nv, closed) for x in evs[:matched + 1] if x["op"] == "edge"]
+    if nv > 2 and len(set(fwd)) > 1:
+        return "path.vertices_in_order"
+    if expect and expect[e - 1] != ev["kind"]:
+        return "piece.kind"
     if ev["kind"] == "arc":
-        if ev["devn"] == CAP:
-            return "piece.kind"
         if ev["devn"] > (NODE_TOL_HP if tr["model"] == "halfplane" else NODE_TOL):
             return "arc.on_exact_circle"
         if ev["devc"] > CURVE_TOL:
@@ -279,7 +300,7 @@ def explain(tr, matched):
             return "arc.inside_region"
         if not ev["minor"]:
             return "arc.between_endpoints"
-    return "piece.kind_or_order"
+    return "piece.rejected"
 
 
 def validate_and_report(run, traces, meta, threshold, name="DrawPathTrace"):
@@ -295,10 +316,10 @@ def validate_and_report(run, traces, meta, threshold, name="DrawPathTrace"):
         for j, i in enumerate(ids):
             matched = rej2.get(j) or 0
             tr = traces[i]
-            clause = explain(tr, matched)
+            clause = explain(tr, matched, meta[i].get("expect"))
             key = "%s:%s:%s:%s:%s" % (meta[i].get("what", "outline"), tr["model"], word_key(tr["word"]), json.dumps(tr["verts"], separators=(",", ":")), clause)
             run.violation(key=key, clause=clause,
                           detail=dict(model=tr["model"], word=tr["word"], verts=tr["verts"], closed=tr["closed"], matched_events=matched,
                                       rejected_event=(tr["events"][matched] if matched < len(tr["events"]) else "outline ends after %d of the pieces" % matched),
-                                      events=tr["events"][:12], **{k: v for k, v in meta[i].items() if k != "what"}))
+                                      events=tr["events"][:12], **{k: v for k, v in meta[i].items() if k not in ("what", "expect")}))
     return n_ok, len(rejected)
